@@ -1,5 +1,5 @@
 """C02 - coincidence probability pc is the exact fraction of coinciding pairs."""
-import itertools, math
+import collections, copy, itertools, math, os, time
 from fractions import Fraction
 import numpy as np
 import pandas as pd
@@ -355,6 +355,756 @@ def width_pair(rng, kind, p1, p2):
     return a, b, hA, hB, desc
 
 
+# ================================================================ coverage audit: input kinds the sections (a)-(f) never generated
+# Expected values: api_pc1 / api_pc2 on injectively tokenised elements (C02_pc_counts, C02_pc_cross_counts), api_gen_pc_n (the pc_n
+# generated from the source, tied to the counting form by C02_pc_n_agrees) on multiplicity vectors counted by collections.Counter where
+# the sample is too large for the unary-nat counting model, and sum_v c1(v)*c2(v) / (N1*N2) from two Counters for large cross samples
+# (the statement of C02_pc_cross_counts read from right to left).
+GAP_TOKENS = ['|', ' ', '::', '\t', ';', '#', '/', '$', '^', '*', '\\', '(', '[', ',', '~', '=>', '||']
+ALPHABETS = {
+    'case': ['cassf', 'CASSF', 'Cassf', 'cASSF', 'CASSf'],
+    'space': ['CASSF', 'CASSF ', ' CASSF', 'CASSF  ', 'CAS SF', 'CASSF\t'],
+    'non-ascii': ['é', 'é', 'e', '中', '中文', 'ß', 'ss', 'Ω', '\U0001F9EC'],
+    'empty': ['', ' ', 'A', '0', '  '],
+    'number-like': ['1', '1.0', '01', '1e0', '+1', '1 ', '1,0'],
+    'control': ['A\tB', 'A\nB', 'A B', 'AB', 'A\\B'],
+    'bool': [True, False],
+    'bytes': [b'a', b'A', b'ab', b'a ', b'\xc3\xa9'],
+}
+BIG_COUNTS = [127, 128, 255, 256, 257, 32767, 32768, 46340, 46341, 46342, 65535, 65536, 65537, 70000]
+BIG_DISTINCT = [255, 256, 257, 65535, 65536, 65537]
+COUNT_DTYPES = [('int8', 11, int), ('uint8', 16, int), ('int16', 181, int), ('uint16', 256, int), ('int32', 46341, int), ('uint32', 65536, int),
+                ('uint64', 2 ** 31, int), ('intp', 2 ** 31, int), ('float64', 2 ** 26, float)]
+
+
+def pending():
+    """Case families that show a POSSIBLE DEFECT of the unchanged library (NOTES.md) run only on request."""
+    return bool(os.environ.get('PV_PENDING_C02'))
+
+
+def content(x):
+    """The elements a holder holds, as Python values (for before / after comparisons)."""
+    if isinstance(x, pd.DataFrame):
+        return [tuple(None if (v is None or v is pd.NA or (isinstance(v, float) and v != v)) else v for v in r)
+                for r in x.astype(object).itertuples(index=False)]
+    if isinstance(x, (list, tuple, collections.deque)):
+        return list(x)
+    return np.asarray(x, dtype=object).tolist()
+
+
+def same_holder(x, s):
+    if type(x) is not type(s) or content(x) != content(s):
+        return False
+    if isinstance(x, (pd.Series, pd.DataFrame)) and not x.index.equals(s.index):
+        return False
+    if isinstance(x, np.ndarray) and (x.dtype != s.dtype or x.shape != s.shape):
+        return False
+    return True
+
+
+def describe(x):
+    if isinstance(x, pd.DataFrame):
+        return 'DataFrame[columns %s, index %s]%s' % (list(x.columns), [str(i) for i in x.index[:12]], content(x)[:12])
+    if isinstance(x, (np.ndarray, pd.Series, list, tuple)):
+        return show_arg(x)
+    return '%s%s' % (type(x).__name__, [repr(v) for v in content(x)[:30]])
+
+
+def _readonly(x):
+    a = np.array(x)
+    a.flags.writeable = False
+    return a
+
+
+def _strided(x):
+    return np.array([v for v in x for _ in (0, 1)])[::2]
+
+
+def ext_holders(rng, vals):
+    """Holders of a sample that (a)-(f) never used: (name, constructor)."""
+    kinds = {type(v) for v in vals}
+    out = [('pd.Index', pd.Index), ('deque', collections.deque), ('pd.Categorical', pd.Categorical),
+           ('Series[category]', lambda x: pd.Series(list(x), dtype='category')), ('ndarray[read-only]', _readonly),
+           ('ndarray[strided view]', _strided), ('ndarray[object]', lambda x: np.array(x, dtype=object)),
+           ('Series[category, permuted index]', lambda x: wrap(rng, x, 'series_perm').astype('category'))]
+    if len(vals) != 2:
+        out.append(('tuple', tuple))                     # a 2-tuple is the legacy (alpha, beta) input
+    if kinds == {str}:
+        out += [('Series[string]', lambda x: pd.Series(list(x), dtype='string')), ('Series[str]', lambda x: pd.Series(list(x), dtype='str')),
+                ('ndarray[<U60]', lambda x: np.array(x, dtype='<U60')), ('pd.array[string]', lambda x: pd.array(list(x), dtype='string'))]
+    if kinds == {int}:
+        out += [('Series[Int64]', lambda x: pd.Series(list(x), dtype='Int64')), ('pd.array[Int64]', lambda x: pd.array(list(x), dtype='Int64')),
+                ('Series[int32, string index]', lambda x: wrap(rng, x, 'series_label').astype('int32'))]
+    if kinds == {float}:
+        out += [('Series[Float64]', lambda x: pd.Series(list(x), dtype='Float64')), ('ndarray[float32]', lambda x: np.array(x, dtype='float32'))]
+    return out
+
+
+def qfrac(q):
+    return q.numerator, q.denominator
+
+
+def aud_check(ctx, site, name, impl, frac, told, rep):
+    num, den = frac
+    if not frac_ok(impl, num, den):
+        ctx.violation('property', '%s = %s for %s, but %d/%d of the pairs hold equal elements' % (name, impl, told, num, den),
+                      dict(rep, func=name, expected='%d/%d' % (num, den)), site=site)
+        return False
+    return True
+
+
+def same_number(ctx, site, name1, r1, name2, r2, told, rep):
+    """'return the same number': two library functions on the same data, compared as numbers."""
+    if r1[0] == 'ok' and r2[0] == 'ok' and not (r1[1] == r2[1] or (r1[1] != r1[1] and r2[1] != r2[1])):
+        ctx.violation('property', '%s = %r but %s = %r on %s: not the same number' % (name1, r1[1], name2, r2[1], told),
+                      dict(rep, func='%s vs %s' % (name1, name2), first=repr(r1[1]), second=repr(r2[1])), site=site)
+
+
+def aud_holders(ctx, st):
+    """(h1) one- and two-sample form over further holders (tuple of N != 2 elements, pd.Index, deque, Categorical, Series of category /
+    string / nullable dtype, read-only and strided arrays), keyword arguments, and the SAME object as both samples."""
+    rng = ctx.rng
+    fresh = dict(str='CASQF', int=7, float=0.25)
+    cases = []
+    for N in range(3, (6 if ctx.quick else 8) + 1):
+        for pat in partitions(N):
+            for kind in ('str', 'int', 'float'):
+                a = realise(rng, pat, kind)
+                pool = list(dict.fromkeys(a)) + [fresh[kind]]
+                b = [rng.choice(pool) for _ in range(rng.randint(1, 6))]
+                cases.append((a, b))
+    outs = ctx.oracle.run_parallel([('api_pc1', [tokens(a)]) for a, _ in cases] + [('api_pc2', tok2(a, b)) for a, b in cases] +
+                                   [('api_pc2', tok2(a, a)) for a, _ in cases])
+    if pending():
+        # POSSIBLE DEFECT (NOTES.md, weak: elements that are tuples): numpy turns a list of k-tuples into an N x k array
+        aud_check(ctx, 'stats.pc[elements are tuples]', 'pc(sample)', call_impl(st.pc, [(1, 2), (1, 2), (3, 4)]), (2, 6), 'the sample [(1, 2), (1, 2), (3, 4)]',
+                  dict(sample=['(1, 2)', '(1, 2)', '(3, 4)']))
+    n = len(cases)
+    for k, (a, b) in enumerate(cases):
+        one, cross, own = outs[k], outs[n + k], outs[2 * n + k]
+        ha, hb = ext_holders(rng, a), ext_holders(rng, b)
+        chosen = rng.sample(ha, 2 if ctx.quick else 4)
+        ctx.case(nontrivial_key=('aud-holder', tuple(map(repr, a)), tuple(map(repr, b))) if 0 < cross[0] < cross[1] else None)
+        for hname, mk in chosen:
+            hname2, mk2 = rng.choice(hb)
+            A, B = mk(a), mk2(b)
+            if content(A) != a or content(B) != b:
+                ctx.count('aud_holder_skipped_not_exact')
+                continue
+            ctx.count('aud_holder_' + hname)
+            sA, sB = copy.deepcopy(A), copy.deepcopy(B)
+            rep = dict(sample=[repr(x) for x in a], sample2=[repr(x) for x in b], held_in=[hname, hname2])
+            told = 'sample %s, sample2 %s' % (describe(sA), describe(sB))
+            site = 'stats.pc[holder]'
+            aud_check(ctx, site, 'pc(sample)', call_impl(st.pc, A), one, told, rep)
+            aud_check(ctx, site, 'pc(sample) [second evaluation of the same object]', call_impl(st.pc, A), one, told, rep)
+            aud_check(ctx, site, 'pc(sample, sample2)', call_impl(st.pc, A, B), cross, told, rep)
+            aud_check(ctx, site, 'pc(sample2, sample)', call_impl(st.pc, B, A), cross, told, rep)
+            aud_check(ctx, site, 'pc(array=sample, array2=sample2)', call_impl(st.pc, array=A, array2=B), cross, told, rep)
+            aud_check(ctx, site, 'pc(array2=sample2, array=sample)', call_impl(st.pc, array2=B, array=A), cross, told, rep)
+            aud_check(ctx, 'stats.pc[same object twice]', 'pc(sample, sample) [one object as both samples]', call_impl(st.pc, A, A), own, told, rep)
+            if not (same_holder(A, sA) and same_holder(B, sB)):
+                ctx.violation('property', 'pc modified the caller\'s sample: %s before, now %s, %s' % (told, describe(A), describe(B)), rep, site='stats.pc[mutation]')
+        # plain holders too: the same list / array / Series object as both samples
+        for hname in ('list', 'ndarray', 'series_perm'):
+            A = wrap(rng, a, hname)
+            ctx.count('aud_same_object_' + hname)
+            aud_check(ctx, 'stats.pc[same object twice]', 'pc(sample, sample) [one %s as both samples]' % hname, call_impl(st.pc, A, A), own,
+                      'sample %s' % describe(A), dict(sample=[repr(x) for x in a], held_in=hname))
+        if len(ctx.violations) > 8:
+            return
+
+
+def aud_alphabets(ctx, st):
+    """(h2) elements that differ only in case, surrounding blanks, a combining character, a look-alike number text, the last of >= 130
+    characters; the empty string; bools; bytes - any difference makes two elements different (injective relabelling invariance)."""
+    rng = ctx.rng
+    pools = dict(ALPHABETS)
+    for L in (130, 260, 1000):
+        base = ''.join(rng.choice(LETTERS) for _ in range(L))
+        pools['long%d' % L] = [base + 'A', base + 'C', base, 'A' + base[1:] + 'A', base[:-1], base + 'AA']
+    pools['long130'] = list(dict.fromkeys(pools['long130']))
+    cases = []
+    for pname, pool in sorted(pools.items()):
+        pool = list(dict.fromkeys(pool))
+        for _ in range(8 if ctx.quick else 40):
+            k = rng.randint(2, len(pool))
+            sub = rng.sample(pool, k)
+            a = [rng.choice(sub) for _ in range(rng.randint(3, 10))]
+            b = [rng.choice(pool) for _ in range(rng.randint(1, 8))]
+            cases.append((pname, a, b))
+    # two-column tables over two string pools (cells without '.' / '_')
+    tab = []
+    tnames = [p for p in sorted(pools) if p not in ('number-like', 'bool', 'bytes')]
+    for _ in range(24 if ctx.quick else 200):
+        p1, p2 = rng.choice(tnames), rng.choice(tnames)
+        base = [(rng.choice(pools[p1]), rng.choice(pools[p2])) for _ in range(rng.randint(1, 3))]
+        rows = [rng.choice(base) if rng.random() < 0.6 else (rng.choice(pools[p1]), rng.choice(pools[p2])) for _ in range(rng.randint(3, 9))]
+        rows2 = [rng.choice(base + rows) if rng.random() < 0.6 else (rng.choice(pools[p1]), rng.choice(pools[p2])) for _ in range(rng.randint(1, 6))]
+        tab.append((p1, p2, rows, rows2))
+    outs = ctx.oracle.run_parallel([('api_pc1', [tokens(a)]) for _, a, _ in cases] + [('api_pc2', tok2(a, b)) for _, a, b in cases] +
+                                   [('api_pc1', [tokens(r)]) for _, _, r, _ in tab] + [('api_pc2', tok2(r, r2)) for _, _, r, r2 in tab])
+    n = len(cases)
+    for k, (pname, a, b) in enumerate(cases):
+        one, cross = outs[k], outs[n + k]
+        ctx.count('aud_alphabet_' + pname)
+        ctx.case(sample=dict(func='pc', alphabet=pname, sample=[repr(x)[:40] for x in a], expected='%d/%d' % one) if k % 9 == 0 and len(ctx.samples) < 6 else None,
+                 nontrivial_key=('aud-alpha', pname, tuple(map(repr, a)), tuple(map(repr, b))) if 0 < one[0] < one[1] else None)
+        hs = [('list', list), ('ndarray', np.array), ('Series', pd.Series), ('ndarray[object]', lambda x: np.array(x, dtype=object))]
+        if pname not in ('bool', 'bytes'):
+            hs += [('Series[str]', lambda x: pd.Series(list(x), dtype='str')), ('pd.Index', pd.Index)]
+        for (hname, mk), (hname2, mk2) in [(hs[0], hs[0]), (rng.choice(hs), rng.choice(hs))]:
+            A, B = mk(a), mk2(b)
+            if content(A) != a or content(B) != b:
+                ctx.count('aud_alphabet_skipped_not_exact')
+                continue
+            rep = dict(alphabet=pname, sample=[repr(x) for x in a], sample2=[repr(x) for x in b], held_in=[hname, hname2])
+            told = '%s elements %s / %s held in %s / %s' % (pname, [repr(x)[:24] for x in a], [repr(x)[:24] for x in b], hname, hname2)
+            site = 'stats.pc[alphabet,%s]' % pname
+            aud_check(ctx, site, 'pc(sample)', call_impl(st.pc, A), one, told, rep)
+            aud_check(ctx, site, 'pc(sample, sample2)', call_impl(st.pc, A, B), cross, told, rep)
+            aud_check(ctx, site, 'pc(sample2, sample)', call_impl(st.pc, B, A), cross, told, rep)
+        if pname not in ('number-like', 'bool', 'bytes'):
+            df, df2 = pd.DataFrame({'CDR3B': pd.Series(a, dtype=object)}), pd.DataFrame({'CDR3B': pd.Series(b, dtype=object)})
+            rep = dict(alphabet=pname, column=[repr(x) for x in a], column2=[repr(x) for x in b])
+            told = 'one-column tables of %s cells %s / %s' % (pname, [repr(x)[:24] for x in a], [repr(x)[:24] for x in b])
+            site = 'stats.pc[alphabet table,%s]' % pname
+            aud_check(ctx, site, 'pc(table)', call_impl(st.pc, df), one, told, rep)
+            aud_check(ctx, site.replace('pc[', 'pc_joint['), 'pc_joint(table, [column])', call_impl(st.pc_joint, df, ['CDR3B']), one, told, rep)
+            aud_check(ctx, site, 'pc(table, table2)', call_impl(st.pc, df, df2), cross, told, rep)
+            aud_check(ctx, site.replace('pc[', 'pc_joint['), 'pc_joint(table, [column], table2)', call_impl(st.pc_joint, df, ['CDR3B'], df2), cross, told, rep)
+        if len(ctx.violations) > 8:
+            return
+    m = len(tab)
+    for k, (p1, p2, rows, rows2) in enumerate(tab):
+        one, cross = outs[2 * n + k], outs[2 * n + m + k]
+        ctx.count('aud_alphabet_table_2col')
+        ctx.case(nontrivial_key=('aud-alpha-tab', tuple(rows), tuple(rows2)) if 0 < one[0] < one[1] else None)
+        df = pd.DataFrame(rows, columns=['CDR3A', 'CDR3B']).astype(object)
+        df2 = pd.DataFrame(rows2, columns=['CDR3A', 'CDR3B']).astype(object)
+        rep = dict(alphabets=[p1, p2], rows=show_rows(rows), rows2=show_rows(rows2))
+        told = 'rows %s / second table %s' % ([tuple(repr(x)[:24] for x in r) for r in rows], [tuple(repr(x)[:24] for x in r) for r in rows2])
+        site = 'stats.pc[alphabet table]'
+        aud_check(ctx, site, 'pc(table)', call_impl(st.pc, df), one, told, rep)
+        aud_check(ctx, site, 'pc((alpha, beta))', call_impl(st.pc, ([r[0] for r in rows], [r[1] for r in rows])), one, told, rep)
+        aud_check(ctx, 'stats.pc_joint[alphabet table]', 'pc_joint(table, both columns)', call_impl(st.pc_joint, df, ['CDR3A', 'CDR3B']), one, told, rep)
+        aud_check(ctx, site, 'pc(table, table2)', call_impl(st.pc, df, df2), cross, told, rep)
+        aud_check(ctx, 'stats.pc_joint[alphabet table]', 'pc_joint(table, both columns, table2)', call_impl(st.pc_joint, df, ['CDR3A', 'CDR3B'], df2), cross, told, rep)
+        if len(ctx.violations) > 8:
+            return
+
+
+def aud_large(ctx, st):
+    """(h3) multiplicities and numbers of distinct values on both sides of 2**7, 2**8, 2**15, 2**16 and of sqrt(2**31) (c*(c-1) and c1*c2
+    beyond 32 bits).  Multiplicities by collections.Counter, value by api_gen_pc_n (C02_pc_n_agrees) / sum c1*c2 / (N1*N2)."""
+    rng = ctx.rng
+    plans = []
+    for c in BIG_COUNTS:
+        if ctx.quick and c not in (255, 256, 257, 46341, 46342, 65536) and rng.random() < 0.3:
+            continue
+        counts = [c] + [rng.randint(1, 6) for _ in range(rng.randint(1, 4))]
+        if rng.random() < 0.35:
+            counts.append(rng.randint(c // 2, c))
+        counts2 = [rng.choice([0, 1, 2, c // 3 + 1, c, c + 1]) for _ in counts]
+        counts2[0] = rng.choice([c, c - 1, c + 1, 46342, 3])
+        if sum(counts2) == 0:
+            counts2[-1] = 1
+        plans.append(('multiplicity %d' % c, counts, counts2, 'str' if (c <= 300 or rng.random() < 0.3) else 'int'))
+    for K in BIG_DISTINCT:
+        if ctx.quick and K in (65535, 65537):
+            continue
+        counts = [1] * K
+        for i in rng.sample(range(K), 3):
+            counts[i] = rng.randint(2, 4)
+        counts2 = [rng.choice([0, 0, 1, 2]) for _ in range(K)]
+        counts2[rng.randrange(K)] = 3
+        plans.append(('%d distinct values' % K, counts, counts2, 'str' if K <= 300 else rng.choice(['int', 'int', 'str'])))
+    reqs = []
+    built = []
+    for what, counts, counts2, kind in plans:
+        K = len(counts)
+        perm = list(range(K))
+        rng.shuffle(perm)                                    # sorted position of a value is unrelated to its multiplicity
+        vals = ['CAS%sF' % format(p, 'x') for p in perm] if kind == 'str' else [7 * p - 3 for p in perm]
+        nprng = np.random.RandomState(rng.randrange(2 ** 31))
+        a = np.repeat(np.array(vals), counts)
+        b = np.repeat(np.array(vals), counts2)
+        nprng.shuffle(a)
+        nprng.shuffle(b)
+        ca, cb = collections.Counter(a.tolist()), collections.Counter(b.tolist())
+        ma = list(ca.values())
+        assert sorted(ma) == sorted(counts) and len(a) == sum(counts)
+        reqs.append(('api_gen_pc_n', [[Fraction(m) for m in ma]]))
+        built.append((what, kind, a, b, ca, cb, ma))
+    outs = ctx.oracle.run_parallel(reqs)
+    for (what, kind, a, b, ca, cb, ma), (defined, q) in zip(built, outs):
+        assert defined
+        one = qfrac(q) if q else (0, len(a) * (len(a) - 1))
+        cq = Fraction(sum(c * cb.get(v, 0) for v, c in ca.items()), len(a) * len(b))
+        cross = qfrac(cq) if cq else (0, len(a) * len(b))
+        ctx.count('aud_large_' + what.replace(' ', '_'))
+        ctx.case(sample=dict(func='pc', what=what, N=len(a), multiplicities=sorted(ma, reverse=True)[:6], expected='%d/%d' % one) if len(ctx.samples) < 6 and one[0] else None,
+                 nontrivial_key=('aud-large', what, kind, tuple(sorted(ma, reverse=True)[:8])) if 0 < one[0] < one[1] else None)
+        top = sorted(ca.items(), key=lambda t: -t[1])[:6]
+        top2 = sorted(cb.items(), key=lambda t: -t[1])[:6]
+        told = 'a %s sample of %d elements (%s; most frequent %s), second sample of %d elements (most frequent %s)' % (kind, len(a), what, top, len(b), top2)
+        rep = dict(what=what, element_kind=kind, multiplicities={str(v): int(c) for v, c in ca.items() if c > 1 or len(ca) < 40},
+                   multiplicities2={str(v): int(c) for v, c in cb.items() if c > 1 or len(cb) < 40}, N=len(a), N2=len(b),
+                   note='each value repeated by its multiplicity, shuffled')
+        holders = [('ndarray', lambda x: x), ('list', lambda x: x.tolist()), ('Series[shifted index]', lambda x: pd.Series(x, index=range(3, 3 + len(x))))]
+        site = 'stats.pc[large]'
+        for hname, mk in ([holders[0], rng.choice(holders[1:])] if ctx.quick else holders):
+            A, B = mk(a), mk(b)
+            rep['held_in'] = hname
+            aud_check(ctx, site, 'pc(sample) [%s]' % hname, call_impl(st.pc, A), one, told, rep)
+            aud_check(ctx, site, 'pc(sample, sample2) [%s]' % hname, call_impl(st.pc, A, B), cross, told, rep)
+            aud_check(ctx, site, 'pc(sample2, sample) [%s]' % hname, call_impl(st.pc, B, A), cross, told, rep)
+        mv = np.array(ma)
+        for name, obj in (('pc_n[list]', list(ma)), ('pc_n[ndarray]', mv), ('pc_n[Series]', pd.Series(ma, index=list(ca.keys())))):
+            r1, r2, mod = twice(st.pc_n, obj)
+            aud_check(ctx, 'stats.pc_n[large]', name + '(multiplicities)', r1, one, told, rep)
+            aud_check(ctx, 'stats.pc_n[large]', name + '(multiplicities) [second evaluation]', r2, one, told, rep)
+            if mod:
+                ctx.violation('property', 'pc_n modified the caller\'s multiplicity vector (%s): %s' % (told, mod), rep, site='stats.pc_n[mutation]')
+        if one[1] < 2 ** 53:
+            same_number(ctx, 'stats.pc[same number as pc_n]', 'pc(sample)', call_impl(st.pc, a), 'pc_n(its multiplicities)', call_impl(st.pc_n, mv), told, rep)
+        if len(ctx.violations) > 8:
+            return
+
+
+def aud_count_vectors(ctx, st):
+    """(h4) pc_n on count vectors as they occur: zero entries (np.bincount, value_counts of a categorical, a subsampled vector), any
+    order, counts up to 2**31 (N(N-1) below 2**63), held in list / tuple / ndarray of every dtype that holds every n_i(n_i-1) / Series with
+    any index / pd.Index / read-only and strided arrays.  Value: api_gen_pc_n (pc_n generated from the source; zero entries add 0 pairs)."""
+    rng = ctx.rng
+    vecs = []
+    for N in range(2, (7 if ctx.quick else 10) + 1):
+        for pat in partitions(N):
+            v = list(pat) + [0] * rng.randint(0, 3)
+            rng.shuffle(v)
+            vecs.append(v)
+    for _ in range(80 if ctx.quick else 600):
+        c = rng.random()
+        if c < 0.4:       # bincount-like: mostly zeros and small counts
+            v = [rng.choice([0, 0, 0, 1, 1, 2, 3, rng.randint(0, 40)]) for _ in range(rng.randint(2, 300))]
+        elif c < 0.7:     # clone sizes with a heavy tail
+            v = [int(rng.paretovariate(1.0)) for _ in range(rng.randint(2, 200))] + [0] * rng.randint(0, 3)
+        else:             # read counts up to 2**31
+            v = [rng.choice([0, 1, 2, 1000, 46341, 46342, 65536, 10 ** 6, 2 ** 31 - 1, 2 ** 31, rng.randint(1, 2 ** 31)]) for _ in range(rng.randint(1, 4))]
+            v = [min(x, 2 ** 31) for x in v]
+        rng.shuffle(v)
+        if sum(v) >= 2 and sum(v) < 3 * 10 ** 9:
+            vecs.append(v)
+    if pending():
+        # POSSIBLE DEFECT (NOTES.md): products n_i(n_i-1) / N(N-1) evaluated in the dtype of the caller's vector wrap around
+        vecs += [('uint8', [20, 3]), ('int16', [200, 3]), ('int32', [70000, 3]), ('int64', [3037000500, 1]), ('list', [2 ** 32, 2 ** 32])]
+    plain = [v for v in vecs if not isinstance(v, tuple)]
+    outs = ctx.oracle.run_parallel([('api_gen_pc_n', [[Fraction(x) for x in (v[1] if isinstance(v, tuple) else v)]]) for v in vecs])
+    for v, (defined, q) in zip(vecs, outs):
+        forced = None
+        if isinstance(v, tuple):
+            forced, v = v
+        if not defined:
+            continue
+        N = sum(v)
+        frac = qfrac(q) if q else (0, N * (N - 1))
+        mx = max(v)
+        zeros = 0 in v
+        ctx.count('aud_count_vector_%s' % ('with_zeros' if zeros else 'positive'))
+        ctx.case(nontrivial_key=('aud-pcn', tuple(v)) if 0 < frac[0] < frac[1] else None)
+        hs = [('list', list), ('tuple', tuple), ('ndarray', np.array), ('ndarray[read-only]', _readonly), ('ndarray[strided view]', _strided),
+              ('pd.Index', pd.Index), ('Series[int64, permuted index]', lambda x: wrap(rng, x, 'series_perm')),
+              ('Series[int64, repeated index]', lambda x: wrap(rng, x, 'series_dup')), ('Series[Int64]', lambda x: pd.Series(list(x), dtype='Int64'))]
+        hs += [('ndarray[%s]' % d, lambda x, d=d: np.array(x, dtype=d)) for d, cmax, _ in COUNT_DTYPES if mx <= cmax]
+        hs += [('Series[%s]' % d, lambda x, d=d: pd.Series(np.array(x, dtype=d), index=['k%d' % i for i in range(len(x))])) for d, cmax, _ in COUNT_DTYPES if mx <= cmax]
+        if forced:
+            hs = [('list', list)] if forced == 'list' else [('ndarray[%s]' % forced, lambda x: np.array(x, dtype=forced))]
+        for hname, mk in ([hs[0]] + rng.sample(hs[1:], min(len(hs) - 1, 3 if ctx.quick else 6)) if not forced else hs):
+            obj = mk(v)
+            if content(obj) != v:
+                continue
+            ctx.count('aud_count_holder_' + hname)
+            told = 'the count vector %s held in %s' % (v[:40], hname)
+            rep = dict(counts=[int(x) for x in v], held_in=hname)
+            before = copy.deepcopy(obj)
+            r1, r2 = call_impl(st.pc_n, obj), call_impl(st.pc_n, n=obj)
+            site = 'stats.pc_n[count vector%s]' % (', narrow dtype / beyond int64' if forced else '')
+            aud_check(ctx, site, 'pc_n(counts)', r1, frac, told, rep)
+            aud_check(ctx, site, 'pc_n(n=counts) [second evaluation of the same object]', r2, frac, told, rep)
+            if not same_holder(obj, before):
+                ctx.violation('property', 'pc_n modified the caller\'s count vector: %s, afterwards %s' % (told, describe(obj)), rep, site='stats.pc_n[mutation]')
+        if len(ctx.violations) > 8:
+            return
+
+
+def aud_refill(ctx, st):
+    """(h5) one object evaluated, changed in place by the caller, evaluated again: the value is that of the CURRENT content."""
+    rng = ctx.rng
+    plans = []
+    for _ in range(40 if ctx.quick else 400):
+        n = rng.randint(3, 9)
+        K = rng.randint(1, 4)
+        kind = rng.choice(['int', 'str', 'float'])
+        mkv = dict(int=lambda i: 5 * i - 7, str=lambda i: 'CAS%sF' % ('G' * i), float=lambda i: i - 0.5)[kind]
+        s1 = [mkv(rng.randint(0, K)) for _ in range(n)]
+        s2 = [mkv(rng.randint(0, K)) for _ in range(n)]
+        other = [mkv(rng.randint(0, K)) for _ in range(rng.randint(1, 5))]
+        plans.append((kind, s1, s2, other))
+    outs = ctx.oracle.run_parallel([x for _, s1, s2, o in plans for x in (('api_pc1', [tokens(s1)]), ('api_pc1', [tokens(s2)]), ('api_pc2', tok2(s1, o)),
+                                                                           ('api_pc2', tok2(s2, o)), ('api_mults', [tokens(s1)]), ('api_mults', [tokens(s2)]))])
+    for k, (kind, s1, s2, other) in enumerate(plans):
+        one1, one2, cross1, cross2, m1, m2 = outs[6 * k: 6 * k + 6]
+        ctx.case(nontrivial_key=('aud-refill', tuple(map(repr, s1)), tuple(map(repr, s2))) if one1 != one2 else None)
+        for hname in ('ndarray', 'list', 'series', 'series_label', 'frame'):
+            ctx.count('aud_refill_' + hname)
+            if hname == 'frame':
+                obj = pd.DataFrame({'CDR3B': pd.Series(s1, dtype=object if kind == 'str' else None), 'n': 1})
+                oth = pd.DataFrame({'CDR3B': pd.Series(other, dtype=object if kind == 'str' else None), 'n': 1})
+            else:
+                obj, oth = wrap(rng, s1, hname), wrap(rng, other, 'list')
+            first = call_impl(st.pc, obj), call_impl(st.pc, obj, oth), call_impl(st.pc, oth, obj)
+            if hname == 'ndarray':
+                obj[:] = s2
+            elif hname == 'list':
+                obj[:] = s2
+            elif hname == 'frame':
+                for i, x in enumerate(s2):
+                    obj.iat[i, 0] = x
+            else:
+                for i, x in enumerate(s2):
+                    obj.iloc[i] = x
+            if content(obj) != ([(x, 1) for x in s2] if hname == 'frame' else s2):
+                ctx.count('aud_refill_skipped_not_exact')
+                continue
+            second = call_impl(st.pc, obj), call_impl(st.pc, obj, oth), call_impl(st.pc, oth, obj)
+            told = 'a %s first holding %s, then refilled in place with %s (second sample %s)' % (hname, s1, s2, other)
+            rep = dict(holder=hname, first_content=[repr(x) for x in s1], refilled_with=[repr(x) for x in s2], sample2=[repr(x) for x in other])
+            site = 'stats.pc[refilled in place]'
+            for nm, r, fr in (('pc(x) before the refill', first[0], one1), ('pc(x, y) before the refill', first[1], cross1), ('pc(y, x) before the refill', first[2], cross1),
+                              ('pc(x) after the refill', second[0], one2), ('pc(x, y) after the refill', second[1], cross2), ('pc(y, x) after the refill', second[2], cross2)):
+                aud_check(ctx, site, nm, r, fr, told, rep)
+            if hname == 'frame':
+                aud_check(ctx, 'stats.pc_joint[refilled in place]', 'pc_joint(x, columns) after the refill', call_impl(st.pc_joint, obj, ['CDR3B', 'n']), one2, told, rep)
+                aud_check(ctx, 'stats.pc_joint[refilled in place]', 'pc_joint(x, columns, y) after the refill', call_impl(st.pc_joint, obj, ['CDR3B', 'n'], oth), cross2, told, rep)
+        # the count vector: np.unique's array reused for the next sample
+        if len(m1) == len(m2) and sum(m1) >= 2:
+            for hname, mk in (('ndarray', np.array), ('Series', lambda x: pd.Series(list(x), index=['k%d' % i for i in range(len(x))]))):
+                ctx.count('aud_refill_counts_' + hname)
+                cnt = mk(list(m1))
+                r1 = call_impl(st.pc_n, cnt)
+                if hname == 'ndarray':
+                    cnt[:] = list(m2)
+                else:
+                    cnt.iloc[:] = list(m2)
+                r2 = call_impl(st.pc_n, cnt)
+                told = 'a count vector (%s) first holding %s, then refilled in place with %s' % (hname, list(m1), list(m2))
+                rep = dict(holder=hname, first_counts=[int(x) for x in m1], refilled_with=[int(x) for x in m2])
+                aud_check(ctx, 'stats.pc_n[refilled in place]', 'pc_n(counts) before the refill', r1, one1, told, rep)
+                aud_check(ctx, 'stats.pc_n[refilled in place]', 'pc_n(counts) after the refill', r2, one2, told, rep)
+        if len(ctx.violations) > 8:
+            return
+
+
+# ---------------------------------------------------------------- (h6) wider tables and the options of pc_joint
+COLS7 = ['TRAV', 'CDR3A', 'TRBV', 'CDR3B', 'TRAJ', 'TRBJ', 'clone']
+INDEX_KINDS = ('default', 'permuted', 'shifted', 'labels', 'repeated', 'multi')
+
+
+def aud_index(rng, n, kind):
+    if kind == 'default':
+        return None
+    if kind == 'permuted':
+        idx = list(range(n))
+        rng.shuffle(idx)
+        return idx
+    if kind == 'shifted':
+        k = rng.randint(1, 50)
+        return list(range(k, k + n))
+    if kind == 'labels':
+        idx = ['r%d' % i for i in range(n)]
+        rng.shuffle(idx)
+        return idx
+    if kind == 'repeated':
+        return [i % max(1, n // 2) for i in range(n)]
+    return pd.MultiIndex.from_tuples([('s%d' % (i % 2), i // 2) for i in range(n)])
+
+
+def aud_colpools(rng, ncol):
+    """Per column: (kind, values).  Columns 0 and 1 are the string columns of (c); at most one float column."""
+    base = cell_pools(rng)
+    long_base = ''.join(rng.choice(LETTERS) for _ in range(rng.choice([130, 260])))
+    extra = [('strlong', [long_base + 'A', long_base + 'C', 'C' + long_base[1:] + 'A', long_base]), ('bool', [True, False]),
+             ('cat', ['TRBV1', 'TRBV2', 'TRBV12', 'TRBV']), ('int', near_numbers(rng, False)), ('str', ['AB', 'A', 'B', '', 'CAB'])]
+    out = [('str', base[0]), ('str', base[1]), ('int', base[2]), ('float', base[3])]
+    while len(out) < ncol:
+        out.append(rng.choice(extra))
+    out = out[:ncol]
+    if ncol >= 3 and rng.random() < 0.5:
+        tail = out[2:]
+        rng.shuffle(tail)
+        out = out[:2] + tail
+    return out
+
+
+def aud_rows(rng, colpools, nrow, seed_rows=()):
+    ncol = len(colpools)
+    rows = []
+    for _ in range(nrow):
+        c = rng.random()
+        src = (rows[-40:] + rows[:5] + list(seed_rows)[:40])
+        if src and c < 0.3:
+            rows.append(tuple(rng.choice(src)))
+        elif src and c < 0.55 and ncol > 1:
+            r = list(rng.choice(src))
+            j = rng.randrange(ncol) if rng.random() < 0.5 else ncol - 1
+            r[j] = rng.choice([x for x in colpools[j][1] if x != r[j]] or [r[j]])
+            rows.append(tuple(r))
+        else:
+            rows.append(tuple(rng.choice(p) for _, p in colpools))
+    return rows
+
+
+def aud_blank(rng, rows, colpools, numeric):
+    """Missing cells: None / nan / pd.NA in string columns; None in the float column; in an int column only when `numeric` (one table:
+    the column turns float as a whole, numbers keep their values)."""
+    out = []
+    for r in rows:
+        r = list(r)
+        for j, (kind, _) in enumerate(colpools):
+            if rng.random() < 0.2:
+                if kind in ('str', 'strlong'):
+                    r[j] = rng.choice([None, None, float('nan'), pd.NA])
+                elif kind == 'float' or (kind == 'int' and numeric):
+                    r[j] = None
+        out.append(tuple(r))
+    return out
+
+
+def aud_frame(rows, colpools, labels, index, infer):
+    cols = []
+    for j, (kind, _) in enumerate(colpools):
+        vals = [r[j] for r in rows]
+        if kind in ('str', 'strlong'):
+            s = pd.Series(vals, dtype='str' if infer else object)
+        elif kind == 'int':
+            s = pd.Series([float('nan') if v is None else v for v in vals]) if any(v is None for v in vals) else pd.Series(vals, dtype='int64')
+        elif kind == 'float':
+            s = pd.Series([float('nan') if v is None else v for v in vals], dtype='float64')
+        elif kind == 'bool':
+            s = pd.Series(vals, dtype=bool)
+        else:
+            s = pd.Series(vals, dtype='category')
+        cols.append(s)
+    df = pd.concat(cols, axis=1) if cols else pd.DataFrame()
+    df.columns = labels
+    if index is not None:
+        df.index = index
+    return df
+
+
+def aud_keys(rows, sel):
+    """One hashable key per row from the GENERATED cells (not read back from the frame): a missing cell is one empty value, numbers by value."""
+    miss = lambda x: x is None or x is pd.NA or (isinstance(x, float) and x != x)
+    return [tuple('' if miss(r[j]) else r[j] for j in sel) for r in rows]
+
+
+def aud_token(rng, rows):
+    texts = {str(x) for r in rows for x in r}
+    while True:
+        t = rng.choice(GAP_TOKENS)
+        if not any(t in x for x in texts):
+            return t
+
+
+def aud_joint_call(rng, st, df, on_labels, df2, token):
+    """pc_joint with the options positionally or by keyword: (description, result).  The selection is a list, as documented (another
+    kind of object is a single label for the sister function pc_grouped_cross)."""
+    how = 'list'
+    on = list(on_labels)
+    style = rng.choice(['positional', 'keyword', 'mixed'])
+    if token is None:
+        if df2 is None:
+            r = call_impl(st.pc_joint, df, on) if style != 'keyword' else call_impl(st.pc_joint, df=df, on=on)
+        else:
+            r = call_impl(st.pc_joint, df, on, df2) if style == 'positional' else call_impl(st.pc_joint, df, on, df_2=df2) if style == 'mixed' else call_impl(st.pc_joint, df_2=df2, on=on, df=df)
+    elif style == 'positional':
+        r = call_impl(st.pc_joint, df, on, df2, token)
+    elif style == 'mixed':
+        r = call_impl(st.pc_joint, df, on, gap_token=token) if df2 is None else call_impl(st.pc_joint, df, on, df2, gap_token=token)
+    else:
+        r = call_impl(st.pc_joint, gap_token=token, df=df, on=on, df_2=df2)
+    return 'on as %s, arguments %s, gap_token %s' % (how, style, 'default' if token is None else repr(token)), r
+
+
+def aud_tables(ctx, st):
+    """(h6) tables of 1-7 columns (string, long string, int, float, bool, categorical), 2-10 or some hundred rows, any index (permuted,
+    shifted, labels, repeated, MultiIndex), integer or repeated column labels, missing cells None / nan / pd.NA also in numeric columns;
+    pc_joint with its options positionally / by keyword and any gap_token that occurs in no cell; one- and two-table form."""
+    rng = ctx.rng
+    if pending():
+        # POSSIBLE DEFECT (NOTES.md), minimal input: row (5, 0.5) occurs in both tables, one of the two rows of t2 -> 1/2
+        t1, t2 = pd.DataFrame(dict(n=[5], f=[0.5])), pd.DataFrame(dict(n=[5, 5], f=[0.5, None]))
+        for nm, r in (('pc_joint(t1, [n, f], t2)', call_impl(st.pc_joint, t1, ['n', 'f'], t2)), ('pc(t1, t2)', call_impl(st.pc, t1, t2))):
+            aud_check(ctx, 'stats.pc[two tables, missing float cell in one of them]', nm, r, (1, 2), 't1 rows [(5, 0.5)], t2 rows [(5, 0.5), (5, missing)]',
+                      dict(rows=[['5', '0.5']], rows2=[['5', '0.5'], ['5', 'None']], columns=['n', 'f']))
+    ntab = 130 if ctx.quick else 2500
+    for t in range(ntab):
+        ncol = rng.choice([1, 2, 2, 3, 4, 4, 5, 6, 7])
+        big = t >= ntab - (8 if ctx.quick else 80)          # small tables first: the first reported input is a small one
+        nrow = rng.randint(130, 420) if big else rng.randint(2, 10)
+        colpools = aud_colpools(rng, ncol)
+        two = t % 2 == 1
+        with_missing = rng.random() < 0.5
+        rows = aud_rows(rng, colpools, nrow)
+        rows2 = aud_rows(rng, colpools, rng.randint(120, 300) if big else rng.randint(1, 8), seed_rows=rows) if two else []
+        if ncol >= 2:
+            rows.append(('AB', 'C') + rows[0][2:])
+            (rows2 if two else rows).append(('A', 'BC') + rows[0][2:])
+        if with_missing:
+            rows = aud_blank(rng, rows, colpools, numeric=not two)
+            rows2 = aud_blank(rng, rows2, colpools, numeric=False)
+            if two and not pending():
+                # POSSIBLE DEFECT (NOTES.md): a float column with a missing cell in only ONE of the two tables (its rows then serialise an
+                # int cell as '5', the all-numeric rows of the other table as '5.0').  Default run: missing in both tables or in neither.
+                for j, (kind, _) in enumerate(colpools):
+                    if kind == 'float':
+                        m1, m2 = any(r[j] is None for r in rows), any(r[j] is None for r in rows2)
+                        if m1 != m2:
+                            tgt = rows2 if m1 else rows
+                            i = rng.randrange(len(tgt))
+                            tgt[i] = tgt[i][:j] + (None,) + tgt[i][j + 1:]
+        labkind = rng.choice(['names', 'names', 'ints', 'repeated names'] if not two else ['names', 'names', 'ints'])
+        labels = COLS7[:ncol] if labkind != 'ints' else list(range(ncol))
+        infer = t % 3 == 2
+        ik1, ik2 = rng.choice(INDEX_KINDS), rng.choice(INDEX_KINDS)
+        df = aud_frame(rows, colpools, labels, aud_index(rng, len(rows), ik1), infer)
+        sel = rng.sample(range(ncol), rng.randint(1, ncol))
+        on_labels = [labels[j] for j in sel]
+        token = aud_token(rng, rows + rows2) if rng.random() < 0.7 else None
+        kinds = [k for k, _ in colpools]
+        ctx.count('aud_table_%s' % ('pair' if two else 'single'))
+        ctx.count('aud_table_index_' + ik1)
+        ctx.count('aud_table_labels_' + labkind.replace(' ', '_'))
+        ctx.count('aud_table_gap_token_' + ('default' if token is None else 'other'))
+        for kd in set(kinds):
+            ctx.count('aud_table_column_' + kd)
+        if big:
+            ctx.count('aud_table_rows_over_127')
+        if with_missing:
+            ctx.count('aud_table_missing_cells' + ('_numeric' if any(r[j] is None for r in rows for j in range(ncol) if kinds[j] in ('int', 'float')) else ''))
+        shown = show_rows(rows[:12])
+        base_rep = dict(rows=show_rows(rows), n_rows=len(rows), column_kinds=kinds, column_labels=[str(x) for x in labels], index=ik1,
+                        string_dtype='str' if infer else 'object', on=[str(x) for x in on_labels], gap_token=token)
+        if not two:
+            kfull, ksel = aud_keys(rows, range(ncol)), aud_keys(rows, sel)
+            full, part, smults = ctx.oracle.run([('api_pc1', [tokens(kfull)]), ('api_pc1', [tokens(ksel)]), ('api_mults', [tokens(ksel)])])
+            ctx.case(sample=dict(base_rep, func='pc_joint', rows=shown[:4], expected='%d/%d' % part) if 0 < part[0] < part[1] and t % 16 == 0 else None,
+                     nontrivial_key=('aud-table', tuple(map(repr, ksel))) if 0 < part[0] < part[1] else None)
+            told = 'the table with rows %s%s (column kinds %s, labels %s, %s index, selected %s)' % (
+                shown, ' ... %d rows' % len(rows) if len(rows) > 12 else '', kinds, labels, ik1, on_labels)
+            if labkind == 'repeated names' and ncol >= 2:
+                d2 = df.copy()
+                lab2 = list(labels)
+                lab2[-1] = lab2[0]
+                d2.columns = lab2
+                aud_check(ctx, 'stats.pc[table, repeated column label]', 'pc(table) [two columns share the label %r]' % lab2[0], call_impl(st.pc, d2), full, told,
+                          dict(base_rep, column_labels=lab2))
+            before = df.copy()
+            aud_check(ctx, 'stats.pc[table+]', 'pc(table)', call_impl(st.pc, df), full, told, base_rep)
+            how, r = aud_joint_call(rng, st, df, labels, None, token)
+            aud_check(ctx, 'stats.pc_joint[table+]', 'pc_joint(table, all columns) [%s]' % how, r, full, told, dict(base_rep, call=how))
+            how, rsel = aud_joint_call(rng, st, df, on_labels, None, token)
+            aud_check(ctx, 'stats.pc_joint[table+]', 'pc_joint(table, on) [%s]' % how, rsel, part, told, dict(base_rep, call=how))
+            aud_check(ctx, 'stats.pc[table+]', 'pc(table[on])', call_impl(st.pc, df[[labels[j] for j in sel]]), part, told, base_rep)
+            if part[1] and part[1] < 2 ** 53:
+                same_number(ctx, 'stats.pc_joint[same number as pc_n]', 'pc_joint(table, on)', rsel, 'pc_n(multiplicities %s of the selected rows)' % list(smults)[:20],
+                            call_impl(st.pc_n, np.array(smults)), told, dict(base_rep, multiplicities=[int(m) for m in smults]))
+            if not df.equals(before) or list(df.columns) != list(before.columns) or not df.index.equals(before.index):
+                ctx.violation('property', 'pc / pc_joint modified the caller\'s table: %s' % told, base_rep, site='stats.pc[mutation]')
+        else:
+            df2 = aud_frame(rows2, colpools, labels, aud_index(rng, len(rows2), ik2), infer)
+            w1 = df.assign(other=range(len(df)))
+            w2 = df2.assign(other=range(len(df2)))[['other'] + list(labels)[::-1]]
+            k1, k2 = aud_keys(rows, range(ncol)), aud_keys(rows2, range(ncol))
+            o1, o2 = aud_keys(rows, sel), aud_keys(rows2, sel)
+            full, part, own = ctx.oracle.run([('api_pc2', tok2(k1, k2)), ('api_pc2', tok2(o1, o2)), ('api_pc2', tok2(o1, o1))])
+            ctx.case(nontrivial_key=('aud-table2', tuple(map(repr, o1)), tuple(map(repr, o2))) if 0 < part[0] < part[1] else None)
+            rep = dict(base_rep, rows2=show_rows(rows2), n_rows2=len(rows2), index2=ik2)
+            told = 'the tables with rows %s%s and %s%s (column kinds %s, labels %s, %s / %s index, selected %s)' % (
+                shown, ' ... %d rows' % len(rows) if len(rows) > 12 else '', show_rows(rows2[:12]), ' ... %d rows' % len(rows2) if len(rows2) > 12 else '',
+                kinds, labels, ik1, ik2, on_labels)
+            b1, b2 = w1.copy(), w2.copy()
+            aud_check(ctx, 'stats.pc[two tables+]', 'pc(t1, t2)', call_impl(st.pc, df, df2), full, told, rep)
+            aud_check(ctx, 'stats.pc[two tables+]', 'pc(array2=t1, array=t2)', call_impl(st.pc, array2=df, array=df2), full, told, rep)
+            for nm, x, y, fr in (('pc_joint(t1, on, t2)', w1, w2, part), ('pc_joint(t2, on, t1)', w2, w1, part), ('pc_joint(t1, on, t1)', w1, w1, own)):
+                how, r = aud_joint_call(rng, st, x, on_labels, y, token)
+                aud_check(ctx, 'stats.pc_joint[two tables+]', '%s [%s]' % (nm, how), r, fr, told, dict(rep, call=how))
+            how, r = aud_joint_call(rng, st, w1, labels, w2, token)
+            aud_check(ctx, 'stats.pc_joint[two tables+]', 'pc_joint(t1, all columns, t2) [%s]' % how, r, full, told, dict(rep, call=how))
+            if not (w1.equals(b1) and w2.equals(b2)):
+                ctx.violation('property', 'pc / pc_joint (two tables) modified the caller\'s tables: %s' % told, rep, site='stats.pc[mutation]')
+        if len(ctx.violations) > 8:
+            return
+
+
+def aud_tuples(ctx, st):
+    """(h7) legacy (alpha, beta) tuple: chains handed over as iterators, chains with missing entries, chains of some hundred entries,
+    numeric chains in typed arrays, the tuple by keyword and as both samples."""
+    rng = ctx.rng
+    alphas, betas = ['CAV', 'CAL', 'CAVS', 'CA'], ['CASS', 'CAST', 'SCASS', 'VCASS', 'CASR']
+    plans = []
+    for t in range(80 if ctx.quick else 1000):
+        big = t % 13 == 5
+        kind = rng.choice(['str', 'str', 'missing', 'numeric'])
+        if kind == 'numeric':
+            av, bv = near_numbers(rng, False), near_numbers(rng, True)
+        else:
+            av, bv = alphas + ([None] if kind == 'missing' else []), betas + ([None] if kind == 'missing' else [])
+        pool = [(rng.choice(av), rng.choice(bv)) for _ in range(rng.randint(1, 4))]
+        draw = lambda: rng.choice(pool) if rng.random() < 0.7 else (rng.choice(av), rng.choice(bv))
+        r1 = [draw() for _ in range(rng.randint(130, 400) if big else rng.randint(3, 9))]
+        r2 = [draw() for _ in range(rng.randint(130, 300) if big else rng.randint(1, 7))]
+        plans.append((kind, r1, r2))
+    key = lambda rows: [tuple('' if x is None else x for x in r) for r in rows]
+    outs = ctx.oracle.run_parallel([x for _, r1, r2 in plans for x in (('api_pc1', [tokens(key(r1))]), ('api_pc2', tok2(key(r1), key(r2))), ('api_pc2', tok2(key(r1), key(r1))))])
+    for k, (kind, r1, r2) in enumerate(plans):
+        one, cross, own = outs[3 * k: 3 * k + 3]
+        ctx.count('aud_tuple_' + kind + ('_long' if len(r1) > 100 else ''))
+        ctx.case(nontrivial_key=('aud-tuple', tuple(map(repr, r1)), tuple(map(repr, r2))) if 0 < one[0] < one[1] else None)
+        a1, b1, a2, b2 = [r[0] for r in r1], [r[1] for r in r1], [r[0] for r in r2], [r[1] for r in r2]
+        if kind == 'numeric':
+            mk = rng.choice([lambda a, b: (np.array(a, dtype='int64'), np.array(b, dtype='float64')), lambda a, b: (pd.Series(a), pd.Series(b, index=range(1, len(b) + 1))),
+                             lambda a, b: (list(a), np.array(b))])
+        elif kind == 'missing':
+            mk = rng.choice([lambda a, b: (list(a), list(b)), lambda a, b: (pd.Series(a, dtype=object), list(b)), lambda a, b: (np.array(a, dtype=object), pd.Series(b, dtype=object))])
+        else:
+            mk = rng.choice([lambda a, b: (list(a), list(b)), lambda a, b: (tuple(a), np.array(b)), lambda a, b: (wrap(rng, a, 'series_label'), wrap(rng, b, 'series_perm'))])
+        told = '(alpha, beta) rows %s%s, second sample rows %s%s' % (r1[:12], ' ... %d rows' % len(r1) if len(r1) > 12 else '', r2[:12], ' ... %d rows' % len(r2) if len(r2) > 12 else '')
+        rep = dict(kind=kind, alpha=[repr(x) for x in a1], beta=[repr(x) for x in b1], alpha2=[repr(x) for x in a2], beta2=[repr(x) for x in b2])
+        site = 'stats.pc[tuple+]'
+        t1, t2 = mk(a1, b1), mk(a2, b2)
+        aud_check(ctx, site, 'pc((alpha, beta))', call_impl(st.pc, t1), one, told, rep)
+        aud_check(ctx, site, 'pc(array=(alpha, beta))', call_impl(st.pc, array=t1), one, told, rep)
+        aud_check(ctx, site, 'pc((alpha, beta), array2=(alpha2, beta2))', call_impl(st.pc, t1, array2=t2), cross, told, rep)
+        aud_check(ctx, site, 'pc((alpha2, beta2), (alpha, beta))', call_impl(st.pc, t2, t1), cross, told, rep)
+        aud_check(ctx, 'stats.pc[same object twice]', 'pc(t, t) [one tuple object as both samples]', call_impl(st.pc, t1, t1), own, told, rep)
+        # iterators are consumed by the call: fresh ones each time
+        aud_check(ctx, site, 'pc((iter(alpha), iter(beta)))', call_impl(st.pc, (iter(a1), iter(b1))), one, told, dict(rep, members='iterators'))
+        aud_check(ctx, site, 'pc((iter(alpha), beta), (alpha2, iter(beta2)))', call_impl(st.pc, (iter(a1), list(b1)), (list(a2), iter(b2))), cross, told, dict(rep, members='iterators'))
+        aud_check(ctx, site, 'pc((generator, generator))', call_impl(st.pc, ((x for x in a1), (y for y in b1))), one, told, dict(rep, members='generators'))
+        if len(ctx.violations) > 8:
+            return
+
+
+def audit(ctx, st):
+    for fam in (aud_holders, aud_alphabets, aud_large, aud_count_vectors, aud_refill, aud_tables, aud_tuples):
+        t0 = time.time()
+        fam(ctx, st)
+        ctx.count('aud_seconds_%s' % fam.__name__, round(time.time() - t0, 1))
+        if len(ctx.violations) > 8:
+            return
+
+
 def run(ctx):
     import pyrepseq.stats as st
     rng = ctx.rng
@@ -372,7 +1122,15 @@ def run(ctx):
                 'same value as the unrelabelled sample; (round 3) count vectors / samples held in ndarray or Series are evaluated twice on the same '
                 'object and must be unchanged; (b2) two samples of different element width: strings vs longer strings with them as prefix, ints vs '
                 'floats (v, v+-0.25, v+-0.5), intN vs wider ints (v + j*2**N), float16/32 vs wider floats (v + eps), both orders; table cells '
-                'with numbers sharing their leading 0-14 significant digits, rows keyed by VALUE; pc_n of the row multiplicities. non-trivial := at least two values repeat and pc is strictly between 0 and 1 '
+                'with numbers sharing their leading 0-14 significant digits, rows keyed by VALUE; pc_n of the row multiplicities; (h, coverage audit) '
+                'samples held in tuple (N != 2) / pd.Index / deque / Categorical / Series of category, string, nullable dtype / read-only and strided '
+                'arrays, keyword arguments, ONE object as both samples; elements differing only in case, blanks, combining characters, number '
+                'spelling, the last of 130-1000 characters, empty string, bools, bytes; multiplicities and numbers of distinct values around 2**7, '
+                '2**8, 2**15, 2**16, sqrt(2**31); pc_n on count vectors with zero entries, counts up to 2**31, every dtype / holder that holds the '
+                'products; an object evaluated, refilled in place, evaluated again; tables of 1-7 columns (long strings, bool, categorical), up to '
+                '420 rows, any index (permuted, labels, repeated, MultiIndex), integer / repeated column labels, missing None / nan / pd.NA also in '
+                'numeric columns, pc_joint with any gap_token that occurs in no cell, options positionally / by keyword, one- and two-table form; '
+                'legacy tuples of iterators, with missing entries, numeric typed chains, some hundred entries. non-trivial := at least two values repeat and pc is strictly between 0 and 1 '
                 '(two-sample forms: strictly between 0 and 1)')
     Nmax = 8 if ctx.quick else 12
     cases = []
@@ -741,6 +1499,10 @@ def run(ctx):
                                            base=a, base2=b, expected='%d/%d' % (n_, d_)), site='stats.pc[numeric]')
             if len(ctx.violations) > 8:
                 return
+    # (h) coverage audit: further holders, alphabets, sizes, count vectors, in-place refills, table kinds, pc_joint options
+    audit(ctx, st)
+    if len(ctx.violations) > 8:
+        return
     # (g) numbers that NumPy's default coercion cannot hold exactly (Python ints on both sides of 2**63, ints above 2**53 mixed with
     #     floats, a uint64 sample against an int64 sample): np.asarray / np.intersect1d fall back to float64 and merge DISTINCT numbers.
     #     These are samples of numbers, i.e. inside the statement; the deviation is a recorded finding (known_findings.json, DESIGN 5
